@@ -31,6 +31,11 @@ static const char* FLAVOR = "san";
 static const char* FLAVOR = "plain";
 #endif
 
+// printable form of a violation detail: newlines kept, every other non-printable or non-ASCII byte escaped
+static std::string printable(const std::string& s) {
+	std::string r; for (unsigned char c : s) { if (c == '\n' || (c >= 32 && c < 127)) r += char(c); else { char b[8]; snprintf(b, sizeof b, "\\x%02x", c); r += b; } } return r;
+}
+
 static double now_s() { timespec t; clock_gettime(CLOCK_MONOTONIC, &t); return double(t.tv_sec) + double(t.tv_nsec) * 1e-9; }
 
 static std::string jstr(const std::string& s) {
@@ -249,7 +254,7 @@ static int replay_file(const std::string& path, int wall, bool quiet) {
 	if (p.expect_oracle.empty()) r = exec_plan(p, wall);
 	if (!quiet) {
 		printf("replay %s: status=%d oracle=%s site=%s step=%ld fingerprint=%016llx\n", path.c_str(), r.status, r.oracle.c_str(), r.site.c_str(), r.step, (unsigned long long)r.fingerprint);
-		if (r.status == 2) printf("%s\n", r.detail.c_str());
+		if (r.status == 2) printf("%s\n", printable(r.detail).c_str());
 	}
 	if (!p.expect_oracle.empty()) {
 		if (rep) { if (!quiet) printf("REPRODUCED expected violation %s at %s\n", p.expect_oracle.c_str(), p.expect_site.c_str()); return 1; }
@@ -284,7 +289,11 @@ static int cmd_run(const Opts& o) {
 		pids.push_back(pid);
 	}
 	bool worker_died = false;
-	for (pid_t p : pids) { int st = 0; waitpid(p, &st, 0); if (!WIFEXITED(st) || WEXITSTATUS(st) != 0) worker_died = true; }
+	for (pid_t p : pids) {
+		int st = 0; waitpid(p, &st, 0); if (!WIFEXITED(st) || WEXITSTATUS(st) != 0) worker_died = true;
+		// scratch directory of the worker's command-line steps
+		for (const char* base : {"/dev/shm", tmp.c_str()}) { std::string d = std::string(base) + "/vsim-cli-" + std::to_string(p); for (const char* f : {"/a.timbuk", "/b.timbuk", "/stdout.txt"}) unlink((d + f).c_str()); rmdir(d.c_str()); }
+	}
 	Agg a;
 	for (int w = 0; w < o.workers; ++w) { std::string f = runid + "-w" + std::to_string(w) + ".agg"; agg_merge_file(a, f); unlink(f.c_str()); }
 	double search_s = now_s() - t0;
@@ -322,7 +331,7 @@ static int cmd_run(const Opts& o) {
 		if (fr != 1) { fprintf(stderr, "HARNESS-NONDETERMINISM: minimised trace %s did not reproduce in a fresh process (exit %d)\n", path.c_str(), fr); exit_code = 2; continue; }
 		std::string prop = o.profile;
 		printf("VIOLATION property=%s replay=%s\n", prop.c_str(), path.c_str());
-		printf("  oracle=%s site=%s seed=%llu flavour=%s steps=%zu (from %zu)\n  %s\n", v.oracle.c_str(), v.site.c_str(), (unsigned long long)v.seed, FLAVOR, m.steps.size(), p.steps.size(), fin.detail.substr(0, 1200).c_str());
+		printf("  oracle=%s site=%s seed=%llu flavour=%s steps=%zu (from %zu)\n  %s\n", v.oracle.c_str(), v.site.c_str(), (unsigned long long)v.seed, FLAVOR, m.steps.size(), p.steps.size(), printable(fin.detail.substr(0, 1200)).c_str());
 		if (exit_code == 0) exit_code = 1;
 		if (vjson.tellp() > 0) vjson << ",";
 		vjson << "{\"oracle\":" << jstr(v.oracle) << ",\"site\":" << jstr(v.site) << ",\"seed\":" << v.seed << ",\"replay\":" << jstr(path) << ",\"steps\":" << m.steps.size() << ",\"detail\":" << jstr(fin.detail.substr(0, 600)) << "}";
